@@ -29,27 +29,52 @@ type gatedCfg struct {
 	Group      bool   `json:"group"`       // watchers: pool created through a Group
 }
 
-// bigWorkerCounts: worker counts around the default (2*NumCPU); 0 = no WithWorkerCount option (the default).
+// bigWorkerCounts: worker counts around the default (2*NumCPU) that are not already among the literal counts
+// 1..4, without duplicates; 0 = no WithWorkerCount option (the default).
 func bigWorkerCounts() []int {
 	n := runtime.NumCPU()
-	return []int{2*n - 1, 2 * n, 2*n + 1, 2*n + 5, 4 * n, 0}
+	seen := map[int]bool{1: true, 2: true, 3: true, 4: true}
+	var out []int
+	for _, w := range []int{2*n - 1, 2 * n, 2*n + 1, 2*n + 5, 4 * n} {
+		if w >= 1 && !seen[w] {
+			seen[w] = true
+			out = append(out, w)
+		}
+	}
+	return append(out, 0)
 }
 
-// workerClass names the worker-count class relative to 2*NumCPU (evidence counters).
-func workerClass(w int) string {
+// allWorkerCounts: the literal counts plus bigWorkerCounts.
+func allWorkerCounts() []int { return append([]int{1, 2, 3, 4}, bigWorkerCounts()...) }
+
+// workerClasses lists EVERY class a worker count belongs to (evidence counters; on machines with few cores
+// the literal counts 1..4 also are 2N-1, 2N, 2N+1 ...): literal 1-4, default (no option), and the position
+// relative to 2*NumCPU. Every class is inhabited for any NumCPU >= 1.
+func workerClasses(w int) []string {
 	n := 2 * runtime.NumCPU()
-	switch {
-	case w == 0:
-		return "default"
-	case w <= 4:
-		return "1-4"
-	case w < n:
-		return "below-2ncpu"
-	case w == n:
-		return "2ncpu"
-	default:
-		return "above-2ncpu"
+	var c []string
+	if w == 0 {
+		c = append(c, "default")
 	}
+	e := effWorkers(w)
+	if e <= 4 && w != 0 {
+		c = append(c, "1-4")
+	}
+	switch {
+	case e < n:
+		c = append(c, "below-2ncpu")
+	case e == n:
+		c = append(c, "2ncpu")
+	default:
+		c = append(c, "above-2ncpu")
+	}
+	return c
+}
+
+// workerClass: the relative class only (used to spread the quick sample over the classes).
+func workerClass(w int) string {
+	cs := workerClasses(w)
+	return cs[len(cs)-1]
 }
 
 func effWorkers(w int) int {
@@ -140,7 +165,7 @@ func allGated() []gatedCfg {
 // called; after its gate opens each task calls back into the pool.
 func allBusy() []gatedCfg {
 	var out []gatedCfg
-	for _, w0 := range append([]int{1, 2, 3, 4}, bigWorkerCounts()...) {
+	for _, w0 := range allWorkerCounts() {
 		w := effWorkers(w0)
 		for _, cancel := range []bool{false, true} {
 			for _, cb := range []string{"isrunning", "submit", "counter", "all"} {
